@@ -1027,6 +1027,7 @@ def run(tier, seed):
                  methods_excluded_algorithmic=idx['excluded'] if idx else None,
                  methods_without_statement=idx['unspecified'] if idx else None,
                  method_source_sha256_16={m['name']: m['sha'] for m in idx['methods'] if m['sha']} if idx else None,
+                 methods_per_file=idx.get('per_file') if idx else None,
                  translation_aborted=abort, mismatches=len(mismatches), oracle_problems=len(problems),
                  gen_wall_s=round(time.time() - t0, 1))
     if translation_aborted:
@@ -1036,8 +1037,12 @@ def run(tier, seed):
         'reading of docstring schemas (precedence ~ > /\\ > \\/ > -> > <->, variable/parameter binding); validated on every run '
         'by the correspondence check (conclusion, replayed conclusion and rule trace of the real thunks vs the extracted model)',
         'coq/Lib/Extra.v: hand-written statements for the methods whose docstring is not a schema',
-        'static_conc uses the checker model ML/Subst.v `inst guards_sound` for Instantiate; patterns are notation-expanded '
-        '(transparency of notation is C12)',
+        'Instantiate in the library model is the GENERATOR\'s Pattern.instantiate (PTerm/Model.v py_inst, shared with C02/C08); '
+        'agreement with the checker\'s Instantiate is a hypothesis (gok / csimple) of C10_replays only; patterns are '
+        'notation-expanded (transparency of notation is C12)',
+        'module-level pattern constants (named axioms) are read by reflection (import of the current module), symbols are '
+        'numbered by Gen/PropLib.index.json `symbols`',
+        'PTerm/*.v (C02\'s serialiser model and compile_correct) for C10_replays',
     ], extra=extra)
 
 
